@@ -22,7 +22,9 @@ RULE = (
     "{edit_distance, prefix_edit_distances(exclude_last both, two padding values)} x "
     "{functional, module}. Cases are distinct by construction (cartesian product of "
     "duplicate-free generators); a case is non-trivial when ref and hyp (as counted) differ "
-    "and are both non-empty."
+    "and are both non-empty. Plus deliberately larger instances (R,H,N) = (127,120,100) and (255,250,17) "
+    "(thorough: also (511,500,9), (63,70,300)) of edit-laden strings with eos in a third of the rows, two cost "
+    "triples, compared with an integer two-row DP: they cross size-dependent code paths a small scope cannot reach."
 )
 ASSUMPTIONS = [
     "small-scope: alphabet of 3 symbols and lengths <= 3/4; costs from a fixed menu of 4/8 triples",
@@ -34,9 +36,80 @@ BUDGET_S = {"quick": 900, "thorough": 3000}
 PAD2 = -7
 
 
+LARGE = [(127, 120, 100), (255, 250, 17)]  # (R, H, N): long sequences x many pairs, beyond the small scope
+
+
 def shards(tier, seed):
     L = S.max_len(tier)
-    return [{"R": R, "H": H} for R in range(L + 1) for H in range(L + 1)]
+    out = [{"R": R, "H": H} for R in range(L + 1) for H in range(L + 1)]
+    out += [{"large": list(x), "cost": c} for x in LARGE for c in ((1.0, 1.0, 1.0), (1.0, 0.5, 2.0))]
+    if tier == "thorough":
+        out += [{"large": [511, 500, 9], "cost": (0.5, 1.0, 1.0)}, {"large": [63, 70, 300], "cost": (1.0, 2.0, 3.0)}]
+    return out
+
+
+def _large(ctx, R, H, N, cost, seed):
+    """One deliberately larger instance: crosses size-dependent code paths (chunking, dtype limits) that a
+    small scope cannot reach.  Strings come from a fixed linear congruential sequence (VERIF_SEED only shifts it)."""
+    x = 12345 + 7919 * seed
+    def nxt():
+        nonlocal x
+        x = (1103515245 * x + 12345) % (2 ** 31)
+        return x >> 16
+    eos = 3
+    refs, hyps = [], []
+    for n in range(N):
+        r = [nxt() % 3 for _ in range(R)]
+        h = [r[i % R] if nxt() % 4 else nxt() % 3 for i in range(H)]  # hyp resembles ref, with edits
+        if n % 3 == 1:
+            r[nxt() % R] = eos
+        if n % 3 == 2:
+            h[nxt() % H] = eos
+        refs.append(r)
+        hyps.append(h)
+    ref = torch.tensor(refs).t().contiguous()
+    hyp = torch.tensor(hyps).t().contiguous()
+    ci, cd, cs = (int(round(c * 2)) for c in cost)
+    for include_eos in (False, True):
+        exp = []
+        for n in range(N):
+            er, eh = O.effective(refs[n], eos, include_eos), O.effective(hyps[n], eos, include_eos)
+            exp.append(O.lev_int(er, eh, ci, cd, cs) / 2.0)
+        for batch_first in (False, True):
+            r_in, h_in = (ref.t(), hyp.t()) if batch_first else (ref, hyp)
+            kw = dict(eos=eos, include_eos=include_eos, batch_first=batch_first, ins_cost=cost[0],
+                      del_cost=cost[1], sub_cost=cost[2])
+            case = {"kind": "large", "R": R, "H": H, "N": N, "cost": cost, "seed": seed}
+            for fn in ("edit_distance", "prefix_edit_distances"):
+                ctx.case(N, N)
+                try:
+                    if fn == "edit_distance":
+                        out = F.edit_distance(r_in, h_in, warn=False, **kw).tolist()
+                        alone = F.edit_distance(r_in[:, N - 1:] if not batch_first else r_in[N - 1:],
+                                                h_in[:, N - 1:] if not batch_first else h_in[N - 1:],
+                                                warn=False, **kw).tolist()
+                    else:
+                        o = F.prefix_edit_distances(r_in, h_in, warn=False, **kw)
+                        o = o.t() if not batch_first else o
+                        out = []
+                        for n in range(N):
+                            eh = O.effective(hyps[n], eos, include_eos)
+                            out.append(o[n, len(eh)].item())
+                        alone = [out[-1]]
+                except Exception as e:
+                    ctx.violation({"api": fn, "symptom": "raises", "type": type(e).__name__, "large": True}, case,
+                                  {"error": str(e)[-300:]})
+                    continue
+                bad = [n for n in range(N) if not S.close(out[n], exp[n])]
+                if bad or not S.close(alone[0], exp[-1]):
+                    ctx.violation({"api": fn, "symptom": "wrong-distance", "large": True,
+                                   "only_in_batch": bool(bad) and S.close(alone[0], exp[-1])},
+                                  dict(case, include_eos=include_eos, batch_first=batch_first),
+                                  {"first_bad_pair": bad[:3], "expected": [exp[n] for n in bad[:3]],
+                                   "observed": [out[n] for n in bad[:3]]})
+                else:
+                    ctx.outcome(round(sum(exp)))
+    ctx.sample({"large_instance": {"R": R, "H": H, "N": N, "cost": cost}})
 
 
 def _check_batch(ctx, pairs, ref, hyp, eos, include_eos, cost, tier, tag, modules, single=False):
@@ -159,6 +232,9 @@ def _check_batch(ctx, pairs, ref, hyp, eos, include_eos, cost, tier, tag, module
 
 def run_shard(spec, tier, seed):
     ctx = Ctx()
+    if "large" in spec:
+        _large(ctx, *spec["large"], tuple(spec["cost"]), seed)
+        return ctx
     R, H = spec["R"], spec["H"]
     pairs, ref, hyp = S.pair_batch(R, H)
     pairs_r, ref_r, hyp_r = S.pair_batch(R, H, reverse=True)
@@ -188,6 +264,9 @@ def run_shard(spec, tier, seed):
 
 def replay(case):
     ctx = Ctx()
+    if case.get("kind") == "large":
+        _large(ctx, case["R"], case["H"], case["N"], tuple(case["cost"]), case["seed"])
+        return ctx
     ref = torch.tensor([case["ref"]], dtype=torch.long).t().contiguous().view(len(case["ref"]), 1)
     hyp = torch.tensor([case["hyp"]], dtype=torch.long).t().contiguous().view(len(case["hyp"]), 1)
     pair = [(tuple(case["ref"]), tuple(case["hyp"]))]
